@@ -89,6 +89,10 @@ def apply_transform(name, dag):
     if name == "preprocess":
         from pytato.codegen import preprocess
         r = preprocess(T.deduplicate(dag), _target())
+        # every output name is computed exactly once (the code generator emits one store per entry of compute_order)
+        if sorted(r.compute_order) != sorted(r.outputs.keys()):
+            raise AssertionError(f"preprocess: compute_order {sorted(r.compute_order)} is not the set of output names "
+                                 f"{sorted(r.outputs.keys())}")
         return r.outputs, dict(r.bound_arguments)
     raise AssertionError(name)
 
